@@ -70,7 +70,17 @@ func (d Decimal) Ceil(dp int) Decimal {
 			return zero(d.Signbit())
 		}
 
-		return compose(false, uint128{1, 0}, int16(dp))
+		if dp > maxBiasedExponent+maxDigits {
+			return inf(false)
+		}
+
+		sig, exp = DefaultRoundingMode.reduce64(false, 1, int16(dp))
+
+		if exp > maxBiasedExponent {
+			return inf(false)
+		}
+
+		return compose(false, sig, exp)
 	}
 
 	var trunc int8
@@ -151,7 +161,17 @@ func (d Decimal) Floor(dp int) Decimal {
 			return zero(d.Signbit())
 		}
 
-		return compose(true, uint128{1, 0}, int16(dp))
+		if dp > maxBiasedExponent+maxDigits {
+			return inf(true)
+		}
+
+		sig, exp = DefaultRoundingMode.reduce64(true, 1, int16(dp))
+
+		if exp > maxBiasedExponent {
+			return inf(true)
+		}
+
+		return compose(true, sig, exp)
 	}
 
 	var trunc int8
